@@ -45,13 +45,16 @@ class CacheModel:
         if not rets:
             raise AnalysisError(f"{f.where} __cache_state__ without return")
         sn = f.params[0]
+        seen_names = set()
 
         def expand(e):
-            if isinstance(e, ast.Tuple):
+            if isinstance(e, (ast.Tuple, ast.List)):
                 for x in e.elts:
                     if isinstance(x, ast.Attribute) and isinstance(x.value, ast.Name) \
                             and x.value.id == sn:
                         cells.append(mangle(f.cls.name, x.attr))
+                    elif isinstance(x, ast.Starred):
+                        expand(x.value)
                     else:
                         raise AnalysisError(
                             f"{f.where} unsupported key component "
@@ -68,6 +71,39 @@ class CacheModel:
                                         f"{ast.unparse(e)}")
                 cells.extend(self.state_cells_of(
                     self.p.lookup(r[1], "__cache_state__"), _depth + 1))
+            elif isinstance(e, ast.Call) and isinstance(e.func, ast.Attribute) \
+                    and e.func.attr == "__cache_state__" \
+                    and isinstance(e.func.value, ast.Call) \
+                    and isinstance(e.func.value.func, ast.Name) \
+                    and e.func.value.func.id == "super":
+                nxt = None
+                mro = f.cls.mro
+                for b in mro[mro.index(f.cls) + 1:]:
+                    if "__cache_state__" in b.methods:
+                        nxt = b.methods["__cache_state__"]
+                        break
+                cells.extend(self.state_cells_of(nxt, _depth + 1))
+            elif isinstance(e, ast.Call) and isinstance(e.func, ast.Name) \
+                    and e.func.id == "tuple" and len(e.args) == 1:
+                expand(e.args[0])
+            elif isinstance(e, ast.Name) and e.id not in seen_names:
+                # a local holding (part of) the key: every value bound to it
+                seen_names.add(e.id)
+                vals = []
+                for n in ast.walk(f.node):
+                    if isinstance(n, ast.Assign) and any(
+                            isinstance(t, ast.Name) and t.id == e.id for t in n.targets):
+                        vals.append(n.value)
+                    elif isinstance(n, ast.AugAssign) and isinstance(n.target, ast.Name) \
+                            and n.target.id == e.id and isinstance(n.op, ast.Add):
+                        vals.append(n.value)
+                if not vals:
+                    raise AnalysisError(f"{f.where} unsupported __cache_state__ "
+                                        f"expression {ast.unparse(e)}")
+                for v in vals:
+                    expand(v)
+            elif isinstance(e, ast.Name):
+                pass
             else:
                 raise AnalysisError(f"{f.where} unsupported __cache_state__ "
                                     f"expression {ast.unparse(e)}")
@@ -710,7 +746,8 @@ def _k4_groups(run, prog, cm):
         t = prog.tree(setter, net, {})
         cells = {e.cell for e in iter_events(t, into_calls=False)
                  if e.kind in ("write", "assign")}
-        bumps = {e.cell for e in iter_events(t, into_calls=False) if e.kind == "bump"}
+        # (a bump delegated to a helper method still counts)
+        bumps = {e.cell for e in iter_events(t, into_calls=True) if e.kind == "bump"}
         groups[pname] = (setter, frozenset(cells), frozenset(bumps))
     run.extra["setter_groups"] = {k: {"cells": sorted(v[1]), "bumps": sorted(v[2])}
                                   for k, v in groups.items()}
